@@ -81,7 +81,8 @@ def main():
     if res.get("confirmed"):
         os.makedirs(dst, exist_ok=True)
         for f in ("patch.diff", "demo.py"):
-            shutil.copy(os.path.join(src, f), os.path.join(dst, f))
+            if os.path.abspath(os.path.join(src, f)) != os.path.abspath(os.path.join(dst, f)):
+                shutil.copy(os.path.join(src, f), os.path.join(dst, f))
         if res.get("applied_3way"):
             open(os.path.join(dst, "patch.diff"), "w").write(res.pop("rebased_patch", open(os.path.join(src, "patch.diff")).read()))
         old = {}
